@@ -26,9 +26,13 @@ type LoadConfig struct {
 	Tags    string            // build tags ("verif")
 	Tests   bool              // also load test variants (thorough second configuration)
 	Overlay map[string][]byte // in-memory file replacements (controls)
+
+	NoNormalise bool // analyse the program as it is (no inlining of new helpers)
 }
 
 type Prog struct {
+	Inlined  []string // helpers (new relative to the pinned tree) inlined by the normaliser before analysis
+	NotInl   []string // new helpers left as they are (shape not supported)
 	Cfg      LoadConfig
 	Fset     *token.FileSet
 	Pkgs     map[string]*packages.Package // by import path (production + testcases)
@@ -55,7 +59,7 @@ func isProdPath(p string) bool {
 
 // Load type-checks /repo's current working tree and builds SSA. Any load or type
 // error is fatal (exit 2, no verdict).
-func Load(cfg LoadConfig) (*Prog, error) {
+func loadOnce(cfg LoadConfig) (*Prog, error) {
 	os.Unsetenv("GOWORK")
 	pc := &packages.Config{
 		Mode:    packages.LoadAllSyntax,
@@ -385,4 +389,107 @@ func (p *Prog) assertNoReflectUnsafe() error {
 		}
 	}
 	return nil
+}
+
+// funcKey: "<package suffix>|<receiver type>|<name>" with canonical names.
+func funcKey(o *types.Func) string {
+	pkg := ""
+	if o.Pkg() != nil {
+		pkg = strings.TrimPrefix(o.Pkg().Path(), modPath)
+	}
+	recv := ""
+	if sig, ok := o.Type().(*types.Signature); ok && sig.Recv() != nil {
+		t := sig.Recv().Type()
+		if pt, isP := t.(*types.Pointer); isP {
+			t = pt.Elem()
+		}
+		if n, isN := t.(*types.Named); isN {
+			recv = canonTypeName(n.Obj())
+		}
+	}
+	return pkg + "|" + recv + "|" + canonFuncObjName(o)
+}
+
+// Load type-checks the working tree, builds SSA and — when the tree contains helpers that are new relative
+// to the pinned tree — inlines them back (normalize.go) and loads the result again through an overlay.
+func Load(cfg LoadConfig) (*Prog, error) {
+	p, err := loadOnce(cfg)
+	if err != nil || cfg.NoNormalise {
+		return p, err
+	}
+	// two functions can end up with the same canonical name (the role-based naming may take an extracted
+	// half of a function for the function itself): the one whose own name differs is then the new one
+	perKey := map[string][]*types.Func{}
+	for _, sfx := range prodPkgs {
+		if pk := p.Pkgs[modPath+sfx]; pk != nil {
+			sc := pk.Types.Scope()
+			for _, nme := range sc.Names() {
+				switch o := sc.Lookup(nme).(type) {
+				case *types.Func:
+					perKey[funcKey(o)] = append(perKey[funcKey(o)], o)
+				case *types.TypeName:
+					if n, ok := o.Type().(*types.Named); ok {
+						for i := 0; i < n.NumMethods(); i++ {
+							perKey[funcKey(n.Method(i))] = append(perKey[funcKey(n.Method(i))], n.Method(i))
+						}
+					}
+				}
+			}
+		}
+	}
+	isNew := func(o *types.Func) bool {
+		k := funcKey(o)
+		if !baselineFuncs[k] {
+			return true
+		}
+		return len(perKey[k]) > 1 && canonFuncObjName(o) != o.Name()
+	}
+	var pkgs []*packages.Package
+	anyNew := false
+	for _, sfx := range prodPkgs {
+		pk := p.Pkgs[modPath+sfx]
+		if pk == nil {
+			continue
+		}
+		pkgs = append(pkgs, pk)
+		sc := pk.Types.Scope()
+		for _, nme := range sc.Names() {
+			switch o := sc.Lookup(nme).(type) {
+			case *types.Func:
+				anyNew = anyNew || (!o.Exported() && isNew(o))
+			case *types.TypeName:
+				if n, ok := o.Type().(*types.Named); ok {
+					for i := 0; i < n.NumMethods(); i++ {
+						anyNew = anyNew || (!n.Method(i).Exported() && isNew(n.Method(i)))
+					}
+				}
+			}
+		}
+	}
+	if !anyNew {
+		return p, nil
+	}
+	ov, inlined, left := normalise(pkgs, cfg.Overlay, os.ReadFile, isNew)
+	if len(inlined) == 0 {
+		p.NotInl = left
+		return p, nil
+	}
+	cfg2 := cfg
+	cfg2.NoNormalise = true
+	cfg2.Overlay = map[string][]byte{}
+	for k, v := range cfg.Overlay {
+		cfg2.Overlay[k] = v
+	}
+	for k, v := range ov {
+		cfg2.Overlay[k] = v
+	}
+	p2, err2 := loadOnce(cfg2)
+	if err2 != nil {
+		// the expansion does not type-check: analyse the program as it is
+		p.NotInl = append(left, inlined...)
+		return p, nil
+	}
+	p2.Inlined, p2.NotInl = inlined, left
+	p2.Cfg = cfg
+	return p2, nil
 }
